@@ -80,5 +80,320 @@ theorem written_slots_other (st : Spec H S) (o : Op H S) (n : Nat) (hn : n ≠ o
   · right; simp [h]
   · left; simp [h, hn]
 
+theorem sstep_cases (hash : H → Hh) (st : Spec H S) (o : Op H S) :
+    (sstep hash st o).2 = st ∨
+    (inWindow st o ∧ (st.slots o.slot).find? (fun e => e.2 = o.signer) = none ∧
+      sstep hash st o = (.none, written st o)) := by
+  by_cases hw : inWindow st o
+  · rw [sstep_in_window hash st o hw]
+    cases hf : (st.slots o.slot).find? (fun e => e.2 = o.signer) with
+    | some e =>
+      left; obtain ⟨prev, ps⟩ := e
+      simp only
+      split <;> rfl
+    | none => right; exact ⟨hw, rfl, rfl⟩
+  · left; rw [sstep_out_of_window hash st o hw]
+
+theorem mem_written (st : Spec H S) (o : Op H S) (n : Nat) (e : H × S)
+    (h : e ∈ (written st o).slots n) :
+    e ∈ st.slots n ∨ (n = o.slot ∧ e = (o.header, o.signer)) := by
+  simp only [written] at h
+  generalize (if o.slotNow - st.start.getD o.slot ≥ 2000 then o.slotNow - 1000 else st.start.getD o.slot) = nf at h
+  by_cases hr : st.start.getD o.slot ≤ n ∧ n < nf
+  · simp [hr] at h
+  · simp only [hr, if_false] at h
+    by_cases hn : n = o.slot
+    · subst hn
+      simp only [if_true, List.mem_append, List.mem_singleton] at h
+      rcases h with h | h
+      · left; exact h
+      · right; exact ⟨rfl, h⟩
+    · simp only [hn, if_false] at h
+      left; exact h
+
+/-- the abstract state after a history, from the empty database -/
+def sst (hash : H → Hh) (ops : List (Op H S)) : Spec H S := (run (sstep hash) Spec.empty ops).2
+
+theorem sst_snoc (hash : H → Hh) (ops : List (Op H S)) (o : Op H S) :
+    sst hash (ops ++ [o]) = (sstep hash (sst hash ops) o).2 := run_snoc_state _ _ _ _
+
+/-- `e` was put into slot `n` by the check `o` that came after the history `p1` -/
+def RecordedBy (hash : H → Hh) (p1 : List (Op H S)) (o : Op H S) (n : Nat) (e : H × S) : Prop :=
+  o.slot = n ∧ (o.header, o.signer) = e ∧ inWindow (sst hash p1) o ∧
+    (sstep hash (sst hash p1) o).1 = .none
+
+structure Inv (hash : H → Hh) (hist : List (Op H S)) : Prop where
+  prov : ∀ n e, e ∈ (sst hash hist).slots n →
+    ∃ p1 o p2, hist = p1 ++ o :: p2 ∧ RecordedBy hash p1 o n e
+  uniq : ∀ n, ((sst hash hist).slots n).Pairwise (fun a b => a.2 ≠ b.2)
+  startb : ∀ f, (sst hash hist).start = some f → ∃ o ∈ hist, f ≤ o.slotNow
+  empty : (sst hash hist).start = none → ∀ n, (sst hash hist).slots n = []
+
+theorem inv_all (hash : H → Hh) : ∀ hist : List (Op H S), Inv hash hist := by
+  apply snoc_induction
+  · exact ⟨fun n e h => by simp [sst, run, Spec.empty] at h, fun n => by simp [sst, run, Spec.empty],
+      fun f h => by simp [sst, run, Spec.empty] at h, fun _ n => by simp [sst, run, Spec.empty]⟩
+  · intro hist o ih
+    rcases sstep_cases hash (sst hash hist) o with hsame | ⟨hw, hfind, hwr⟩
+    · -- state unchanged
+      have hs : sst hash (hist ++ [o]) = sst hash hist := by rw [sst_snoc, hsame]
+      refine ⟨?_, ?_, ?_, ?_⟩
+      · intro n e h
+        rw [hs] at h
+        obtain ⟨p1, o', p2, hh, hr⟩ := ih.prov n e h
+        exact ⟨p1, o', p2 ++ [o], by simp [hh], hr⟩
+      · intro n; rw [hs]; exact ih.uniq n
+      · intro f h; rw [hs] at h
+        obtain ⟨x, hx, hle⟩ := ih.startb f h
+        exact ⟨x, by simp [hx], hle⟩
+      · intro h n; rw [hs] at h ⊢; exact ih.empty h n
+    · have hs : sst hash (hist ++ [o]) = written (sst hash hist) o := by rw [sst_snoc, hwr]
+      refine ⟨?_, ?_, ?_, ?_⟩
+      · intro n e h
+        rw [hs] at h
+        rcases mem_written _ _ _ _ h with h | ⟨hn, he⟩
+        · obtain ⟨p1, o', p2, hh, hr⟩ := ih.prov n e h
+          exact ⟨p1, o', p2 ++ [o], by simp [hh], hr⟩
+        · exact ⟨hist, o, [], rfl, hn.symm, he.symm, hw, by rw [hwr]⟩
+      · intro n; rw [hs]
+        by_cases hn : n = o.slot
+        · subst hn
+          rw [written_slot _ _ hw, List.pairwise_append]
+          refine ⟨ih.uniq _, by simp, ?_⟩
+          intro a ha b hb
+          simp only [List.mem_singleton] at hb
+          subst hb
+          have := List.find?_eq_none.mp hfind a ha
+          simpa using this
+        · rcases written_slots_other (sst hash hist) o n hn with h | h
+          · rw [h]; exact ih.uniq n
+          · rw [h]; exact List.Pairwise.nil
+      · intro f h; rw [hs] at h
+        simp only [written, Option.some.injEq] at h
+        obtain ⟨hw1, hw2⟩ := hw
+        exact ⟨o, by simp, by rw [← h]; split <;> omega⟩
+      · intro h; rw [hs] at h; simp [written] at h
+
+
+/-- signers are pairwise different within every slot -/
+def UniqueSigners (st : Spec H S) : Prop := ∀ n, (st.slots n).Pairwise (fun a b => a.2 ≠ b.2)
+
+theorem find_of_mem_unique {l : List (H × S)} (hu : l.Pairwise (fun a b => a.2 ≠ b.2)) {a : H} {s : S}
+    (hm : (a, s) ∈ l) : l.find? (fun e => e.2 = s) = some (a, s) := by
+  induction l with
+  | nil => simp at hm
+  | cons x r ih =>
+    rw [List.pairwise_cons] at hu
+    simp only [List.mem_cons] at hm
+    rcases hm with hm | hm
+    · subst hm; simp
+    · have : x.2 ≠ s := hu.1 (a, s) hm
+      simp [this, ih hu.2 hm]
+
+theorem mem_of_find {l : List (H × S)} {s : S} {e : H × S} (h : l.find? (fun e => e.2 = s) = some e) :
+    e ∈ l ∧ e.2 = s := by
+  have h1 := List.mem_of_find?_eq_some h
+  have h2 := List.find?_some h
+  exact ⟨h1, by simpa using h2⟩
+
+/-- shape of every returned proof -/
+theorem spec_proof_shape (hash : H → Hh) (st : Spec H S) (o : Op H S) {sl : Nat} {off : S} {a b : H}
+    (h : (sstep hash st o).1 = .proof sl off a b) :
+    sl = o.slot ∧ off = o.signer ∧ b = o.header ∧ hash a ≠ hash b ∧ inWindow st o ∧
+      (a, o.signer) ∈ st.slots o.slot := by
+  by_cases hw : inWindow st o
+  · rw [sstep_in_window hash st o hw] at h
+    cases hf : (st.slots o.slot).find? (fun e => e.2 = o.signer) with
+    | none => rw [hf] at h; simp at h
+    | some e =>
+      obtain ⟨prev, ps⟩ := e
+      rw [hf] at h
+      simp only at h
+      obtain ⟨hm, hs⟩ := mem_of_find hf
+      simp only at hs
+      subst hs
+      by_cases hh : hash o.header = hash prev
+      · simp [hh] at h
+      · simp only [ne_eq, hh, not_false_eq_true, if_true, Out.proof.injEq] at h
+        obtain ⟨r1, r2, r3, r4⟩ := h
+        subst r1 r2 r3 r4
+        exact ⟨rfl, rfl, rfl, fun x => hh x.symm, hw, hm⟩
+  · rw [sstep_out_of_window hash st o hw] at h; simp at h
+
+/-- exactness: a proof is returned exactly when, within the retained window, the signer has a
+    different header recorded for the slot -/
+theorem spec_exact (hash : H → Hh) (st : Spec H S) (hu : UniqueSigners st) (o : Op H S) (a : H) :
+    (sstep hash st o).1 = .proof o.slot o.signer a o.header ↔
+      (inWindow st o ∧ (a, o.signer) ∈ st.slots o.slot ∧ hash a ≠ hash o.header) := by
+  constructor
+  · intro h
+    obtain ⟨_, _, _, h4, h5, h6⟩ := spec_proof_shape hash st o h
+    exact ⟨h5, h6, h4⟩
+  · intro ⟨hw, hm, hh⟩
+    rw [sstep_in_window hash st o hw, find_of_mem_unique (hu o.slot) hm]
+    have : hash o.header ≠ hash a := fun x => hh x.symm
+    simp [this]
+
+/-- re-checking the recorded header gives no proof and changes nothing -/
+theorem spec_recheck_recorded (hash : H → Hh) (st : Spec H S) (hu : UniqueSigners st) (o : Op H S)
+    (a : H) (hm : (a, o.signer) ∈ st.slots o.slot) (hh : hash a = hash o.header) :
+    sstep hash st o = (.none, st) := by
+  by_cases hw : inWindow st o
+  · rw [sstep_in_window hash st o hw, find_of_mem_unique (hu o.slot) hm]
+    simp [hh]
+  · exact sstep_out_of_window hash st o hw
+
+/-- a check that returned no proof returns no proof when repeated, and the state stays put -/
+theorem spec_idempotent (hash : H → Hh) (st : Spec H S) (o : Op H S)
+    (h : (sstep hash st o).1 = .none) :
+    sstep hash (sstep hash st o).2 o = (.none, (sstep hash st o).2) := by
+  rcases sstep_cases hash st o with hsame | ⟨hw, hfind, hwr⟩
+  · rw [hsame]
+    have : sstep hash st o = ((sstep hash st o).1, (sstep hash st o).2) := rfl
+    rw [this, h, hsame]
+  · rw [hwr]
+    simp only
+    have hw' : inWindow (written st o) o := by
+      obtain ⟨h1, h2⟩ := hw
+      refine ⟨h1, ?_⟩
+      simp only [written, Option.getD_some]
+      split <;> omega
+    rw [sstep_in_window hash _ o hw', written_slot st o hw]
+    have : (st.slots o.slot ++ [(o.header, o.signer)]).find? (fun e => e.2 = o.signer)
+        = some (o.header, o.signer) := by
+      rw [List.find?_append, hfind]; simp
+    rw [this]; simp
+
+/-- an entry survives every check whose current slot is at most 1000 ahead of the entry's slot -/
+theorem spec_retained_step (hash : H → Hh) (st : Spec H S) (o : Op H S) (n : Nat) (e : H × S)
+    (hm : e ∈ st.slots n) (hnow : o.slotNow ≤ n + 1000) : e ∈ (sstep hash st o).2.slots n := by
+  rcases sstep_cases hash st o with hsame | ⟨hw, hfind, hwr⟩
+  · rw [hsame]; exact hm
+  · rw [hwr]
+    by_cases hn : n = o.slot
+    · subst hn; rw [written_slot st o hw]; simp [hm]
+    · simp only [written]
+      have : ¬ (st.start.getD o.slot ≤ n ∧
+          n < if o.slotNow - st.start.getD o.slot ≥ 2000 then o.slotNow - 1000 else st.start.getD o.slot) := by
+        split <;> omega
+      simp [this, hn, hm]
+
+theorem spec_retained (hash : H → Hh) (ops : List (Op H S)) (st : Spec H S) (n : Nat) (e : H × S)
+    (hm : e ∈ st.slots n) (hnow : ∀ o ∈ ops, o.slotNow ≤ n + 1000) :
+    e ∈ (run (sstep hash) st ops).2.slots n := by
+  induction ops generalizing st with
+  | nil => exact hm
+  | cons o r ih =>
+    simp only [run]
+    exact ih _ (spec_retained_step hash st o n e hm (hnow o (by simp)))
+      (fun x hx => hnow x (by simp [hx]))
+
+
+theorem uniqueSigners_sst (hash : H → Hh) (hist : List (Op H S)) : UniqueSigners (sst hash hist) :=
+  (inv_all hash hist).uniq
+
+theorem sst_append_cons (hash : H → Hh) (p1 p2 : List (Op H S)) (o : Op H S) :
+    sst hash (p1 ++ o :: p2) = (run (sstep hash) (sstep hash (sst hash p1) o).2 p2).2 := by
+  simp only [sst, run_append, run]
+
+/-- start marker is below the current slot of any check that is not earlier than all previous ones -/
+theorem start_le_now (hash : H → Hh) (hist : List (Op H S)) (o : Op H S)
+    (hfut : o.slot ≤ o.slotNow) (ht : ∀ x ∈ hist, x.slotNow ≤ o.slotNow) :
+    (sst hash hist).start.getD o.slot ≤ o.slotNow := by
+  cases h : (sst hash hist).start with
+  | none => simpa using hfut
+  | some f =>
+    obtain ⟨x, hx, hle⟩ := (inv_all hash hist).startb f h
+    have := ht x hx
+    simp only [Option.getD_some]; omega
+
+/-- history-level completeness: the first in-window check of a (slot, signer) is recorded; as long
+    as time has not moved more than 1000 slots past that slot, a later check of the same signer and
+    slot with a different header yields the proof carrying both headers -/
+theorem spec_complete_history (hash : H → Hh) (p1 p2 : List (Op H S)) (o' o : Op H S)
+    (hfirst : ∀ x ∈ p1, ¬ (x.slot = o'.slot ∧ x.signer = o'.signer))
+    (hfut : o'.slot ≤ o'.slotNow) (hcap : o'.slotNow - o'.slot ≤ 1000)
+    (ht1 : ∀ x ∈ p1, x.slotNow ≤ o'.slotNow)
+    (ht2 : ∀ x ∈ p1 ++ o' :: p2, x.slotNow ≤ o.slotNow)
+    (hslot : o.slot = o'.slot) (hsig : o.signer = o'.signer)
+    (hrecent : o.slotNow ≤ o'.slot + 1000)
+    (hh : hash o'.header ≠ hash o.header) :
+    (sstep hash (sst hash (p1 ++ o' :: p2)) o).1 = .proof o.slot o.signer o'.header o.header := by
+  have hw1 : inWindow (sst hash p1) o' := ⟨hcap, start_le_now hash p1 o' hfut ht1⟩
+  have hnone : ((sst hash p1).slots o'.slot).find? (fun e => e.2 = o'.signer) = none := by
+    rw [List.find?_eq_none]
+    intro e he hs
+    obtain ⟨q1, x, q2, hq, hx1, hx2, _⟩ := (inv_all hash p1).prov _ e he
+    have hs' : e.2 = o'.signer := by simpa using hs
+    apply hfirst x (by rw [hq]; simp)
+    refine ⟨hx1, ?_⟩
+    rw [← hs', ← hx2]
+  have hstep : sstep hash (sst hash p1) o' = (.none, written (sst hash p1) o') := by
+    rw [sstep_in_window hash _ o' hw1, hnone]
+  have hmem1 : (o'.header, o'.signer) ∈ (sstep hash (sst hash p1) o').2.slots o'.slot := by
+    rw [hstep]; simp only; rw [written_slot _ _ hw1]; simp
+  have ho'now : o'.slotNow ≤ o.slotNow := ht2 o' (by simp)
+  have hmem : (o'.header, o.signer) ∈ (sst hash (p1 ++ o' :: p2)).slots o.slot := by
+    rw [sst_append_cons, hslot, hsig]
+    apply spec_retained hash p2 _ _ _ hmem1
+    intro x hx
+    have := ht2 x (by simp [hx])
+    omega
+  have hw : inWindow (sst hash (p1 ++ o' :: p2)) o := by
+    refine ⟨by omega, start_le_now hash _ o (by omega) ht2⟩
+  exact (spec_exact hash _ (uniqueSigners_sst hash _) o o'.header).mpr ⟨hw, hmem, hh⟩
+
+/-! ### the `start ≤ stored slot` invariant holds only when no check is below the start marker -/
+
+/-- every check of the history had its slot at or above the start marker of its time -/
+def AboveStart (hash : H → Hh) (hist : List (Op H S)) : Prop :=
+  ∀ p1 o p2, hist = p1 ++ o :: p2 → ∀ f, (sst hash p1).start = some f → f ≤ o.slot
+
+theorem spec_start_le_stored (hash : H → Hh) : ∀ hist : List (Op H S), AboveStart hash hist →
+    ∀ n f, (sst hash hist).slots n ≠ [] → (sst hash hist).start = some f → f ≤ n := by
+  apply snoc_induction
+  · intro _ n f h; simp [sst, run, Spec.empty] at h
+  · intro hist o ih ha n f hne hst
+    have ha' : AboveStart hash hist := by
+      intro p1 x p2 hh
+      exact ha p1 x (p2 ++ [o]) (by simp [hh])
+    have hao := ha hist o [] rfl
+    rcases sstep_cases hash (sst hash hist) o with hsame | ⟨hw, hfind, hwr⟩
+    · have hs : sst hash (hist ++ [o]) = sst hash hist := by rw [sst_snoc, hsame]
+      rw [hs] at hne hst
+      exact ih ha' n f hne hst
+    · have hs : sst hash (hist ++ [o]) = written (sst hash hist) o := by rw [sst_snoc, hwr]
+      rw [hs] at hne hst
+      obtain ⟨hw1, hw2⟩ := hw
+      simp only [written, Option.some.injEq] at hne hst
+      -- `first ≤ n`
+      have hfn : (sst hash hist).start.getD o.slot ≤ n := by
+        cases hstart : (sst hash hist).start with
+        | none =>
+          have hemp := (inv_all hash hist).empty hstart
+          by_cases hn : n = o.slot
+          · simp [hn]
+          · simp [hn, hemp] at hne
+        | some f0 =>
+          simp only [Option.getD_some]
+          by_cases hn : n = o.slot
+          · rw [hn]; exact hao f0 hstart
+          · apply ih ha' n f0 _ hstart
+            intro hnil
+            simp [hn, hnil] at hne
+      generalize (sst hash hist).start.getD o.slot = first at hne hst hfn hw2
+      rw [← hst]
+      by_cases hr : first ≤ n ∧ n < (if o.slotNow - first ≥ 2000 then o.slotNow - 1000 else first)
+      · simp [hr] at hne
+      · omega
+
 end
+
+/-- without that hypothesis the invariant fails: a check of an older slot (still within the capacity)
+    is stored below the start marker, and no later pruning ever removes it -/
+theorem spec_start_le_stored_counterexample :
+    let hist : List (Op Nat Nat) := [⟨10, 10, 0, 0⟩, ⟨10, 5, 0, 0⟩]
+    (sst (fun x : Nat => x) hist).start = some 10 ∧ (sst (fun x : Nat => x) hist).slots 5 ≠ [] := by
+  simp [sst, run, sstep, specStep, Spec.empty]
+
 end Gossamer.C27
